@@ -2,7 +2,7 @@
 """Regenerates MANIFEST.json from the table below (kept next to the driver so the two cannot drift)."""
 import json, subprocess
 
-HOOK_COMMITS = ["c341338", "65a25d2"]
+HOOK_COMMITS = ["c341338", "65a25d2", "21b6488", "b38e07e"]
 
 CLAIMED = {
  # id: (engine, category, technique, level text, level note, design ref)
@@ -11,6 +11,46 @@ CLAIMED = {
          "Generated chains of every log kind x target are pushed through the API JSON form and through an emulated store row and must come back equal and re-hash to the stored hash; exploration of a generated input space with shrinking, not a proof.",
          "Trusted: the jsonb/timestamptz emulation (generic decode with exact numbers, instant truncated to microseconds); log dates are ledger.Now()-shaped (UTC, microseconds); no NUL in strings.",
          "DESIGN.md 5/C13"),
+ "C02": ("ENGINE-SIM", "exploration",
+         "stateful property-based testing with a harness-owned scheduler (rapid + testing/synctest); invariant over the persisted history (independent fold, per-debit floor)",
+         "Generated sets of concurrent creates/reverts run on the real Commander/locker/batcher under generated interleavings; the persisted log is folded independently and every debit must respect the balance at its log position. Exploration: many histories x schedules, no exhaustiveness.",
+         "Trusted: model store in place of PostgreSQL (reads see exactly the committed batches); interleavings at gate granularity (store calls, monitor calls, verifhook points); the harness fold.",
+         "DESIGN.md 5/C02"),
+ "C05": ("ENGINE-SIM", "exploration",
+         "stateful property-based testing with generated schedules, batch sizes and crash/restart points; history invariant (ids, hash recomputation incl. read-back form, tx ids)",
+         "The sequence of logs handed to the store, across commander generations, must carry ids 0..n-1, hashes that recompute from stored content and previous hash, and transaction ids 0,1,2.. in log order. Exploration of generated histories/schedules/crash points.",
+         "Trusted: model store; crash = goroutines stop at their next gate and un-inserted batches vanish; storeform emulation for the read-back recomputation.",
+         "DESIGN.md 5/C05"),
+ "C06": ("ENGINE-SIM", "fault_enumeration",
+         "per generated history, exhaustive enumeration of every crash position and every single InsertLogs failure; bijection oracle between success responses and persisted entries",
+         "For each generated history and schedule the check re-runs it once per scheduler step with the process dying there, and once per InsertLogs call failing: exhaustive over single crash points / single store faults of that history; histories themselves are sampled.",
+         "Trusted: model store; the crash model (see DESIGN.md 4.2); attribution of entries to requests through request-chosen tags.",
+         "DESIGN.md 5/C06"),
+ "C07": ("ENGINE-SIM", "exploration",
+         "stateful property-based testing: duplicated keyed requests x schedules x restart; invariant: <=1 entry per key, equal outcomes",
+         "Generated groups of identical keyed requests (all write kinds) are issued sequentially, racing and across a crash; at most one entry may carry the key and every success must return it.",
+         "Trusted: model store; read-back of the keyed log through the storeform emulation.",
+         "DESIGN.md 5/C07"),
+ "C10": ("ENGINE-SIM", "exploration",
+         "stateful property-based testing: revert races and later histories; oracle: exact inversion, once-only, floor for unforced, balance restoration",
+         "Generated committed shapes are reverted (forced/unforced, racing, after funds moved on); every revert entry must be the exact inverse, at most one per target, never overdraw unless forced, and restore balances when untouched.",
+         "Trusted: model store (reverted flag served from the harness fold; the SQL projection of the flag is outside, see C04).",
+         "DESIGN.md 5/C10"),
+ "C11": ("ENGINE-SIM", "exploration",
+         "stateful property-based testing: same-reference creates x schedules x competitor outcome x faults; invariant over persisted history and error classes",
+         "Generated groups of creates sharing a reference race each other and the persistence of competitors; at most one committed transaction per reference, refusals are CONFLICT, no spurious CONFLICT.",
+         "Trusted: model store (reference lookup sees committed batches only).",
+         "DESIGN.md 5/C11"),
+ "C14": ("ENGINE-SIM", "exploration",
+         "metamorphic property-based testing: history with previews vs without vs preview-made-real, byte-level comparison of log, responses and events",
+         "Three-way metamorphic relation on generated sequential histories with restarts: inserting previews must change nothing observable, and a preview must answer what the real write answers.",
+         "Trusted: model store; the bubble's fake clock (stands still, so hashes are comparable).",
+         "DESIGN.md 5/C14"),
+ "C16": ("ENGINE-SIM", "exploration",
+         "stateful property-based testing with the real ledgerMonitor over a recording publisher; oracle: publication <-> persisted entry content match, at-least-once",
+         "Every message published during generated histories (real, preview, keyed replay, concurrent) is decoded and must equal an entry persisted at publication time; every acknowledged entry must be published.",
+         "Trusted: model store; publication order inside one request is the code's own.",
+         "DESIGN.md 5/C16"),
 }
 
 NOT_YET = "check not built yet in this revision of /verif (planned, see DESIGN.md section 5)"
@@ -52,6 +92,7 @@ def main():
     open("MANIFEST.json", "a").write("\n")
 
 ENGINES = [
+ {"name": "ENGINE-SIM", "path": "harness/enginesim", "serves_properties": ["C02", "C05", "C06", "C07", "C10", "C11", "C14", "C16"], "kind_free_text": "deterministic schedule/crash/fault simulation of command.Commander in a synctest bubble + history oracles"},
  {"name": "LOGRT", "path": "harness/checks/c13_test.go", "serves_properties": ["C13"], "kind_free_text": "rapid generators + round-trip / metamorphic oracles"},
 ]
 NA = {}
